@@ -37,6 +37,20 @@ def settings_roundtrip(ctx, rng, with_codes=False):
     path = os.path.join(d, 'cfg.xml')
     problems = []
     try:
+        for dec in protocols:
+            dec.enabled, dec.tolerance, dec.frequency_tolerance = True, 20, 2
+        # the application has been decoding before it saves: a few keys go through the dispatcher (decode may not disturb what save
+        # writes)
+        for p in rng.sample(protoinfo.all_protocols(), 4) + [protoinfo.by_name().get('NEC')]:
+            if p is None:
+                continue
+            try:
+                a = gen_inputs.param_assignments(p, rng, 1)[0]
+                fr = getattr(protocols, p['name']).encode(**a).normalized_rlc[0]
+                protocols.decode(list(fr), p['frequency'])
+            except Exception:  # noqa
+                pass
+        vlib.drain_workers()
         want = {}
         for dec in protocols:
             en = rng.random() < 0.7
